@@ -31,13 +31,15 @@ def run(tier, seed):
     chk = gv.Check(PROP, tier, seed, level="proof")
     _merge_fragment(chk)
     proof = gv.proof_status(PROP, REQ_PROPS)
-    ncases = 400 if tier == "quick" else 6000
+    ncases = 400 if tier == "quick" else 4000
     ok, out, binp = gv.cargo_build("c16")
     if not ok:
         chk.violation("build", {"what": "the harness no longer builds against /repo's working tree", "log": out[-3000:],
                                 "broken": ["correspondence C16: harness build failed"]}, no_input=True)
         return chk.finish(proof)
-    rc, so, se, cases, dt = gv.run_harness(binp, ["--seed", seed, "--cases", ncases, "--tier", tier],
+    # passing cases of one kind are written 4 at a time as one conjunction (fixed coqc start-up cost per
+    # shard); `c16 --batch 1` writes them singly (use it to localise a correspondence mismatch)
+    rc, so, se, cases, dt = gv.run_harness(binp, ["--seed", seed, "--cases", ncases, "--tier", tier, "--batch", 4],
                                            gv.os.path.join(gv.BUILD, "out", "c16.jsonl"))
     if rc != 0:
         chk.violation("crash", {"what": "the harness crashed", "stderr": se, "broken": ["harness exit %d" % rc]}, no_input=True)
@@ -51,7 +53,8 @@ def run(tier, seed):
         "bincode bytes + decode, spill bytes + decode, OrderableValue::try_from; generated values (depth <= 4), near-equal "
         "mutations, mutated encodings fed to both decoders; f64/f32 comparison, classification and i64->f64 rounding on boundary "
         "and random bit patterns; bincode varints. Non-trivial = pair of different variants or a boundary float/int, value other "
-        "than Null/Bool, non-empty byte input; distinct = distinct (kind,input)")
+        "than Null/Bool, non-empty byte input; distinct = distinct (kind,input). Passing observations of one kind are grouped 4 per "
+        "case (evaluations/distinct_nontrivial count cases; observations_total counts the single observations)")
     picks = []
     seen = set()
     for c in cases:
@@ -60,6 +63,9 @@ def run(tier, seed):
             picks.append({"kind": c["k"], "input": c["in"][:200], "impl": c["impl"][:200], "oracle": c["oracle"]})
     chk.coverage["samples"] = picks[:12]
     chk.coverage["trusted_base"] = TRUSTED
+    tags = chk.coverage.get("tags", {})
+    chk.coverage["observations"] = {k[4:]: v for k, v in tags.items() if k.startswith("obs:")}
+    chk.coverage["observations_total"] = sum(v for k, v in tags.items() if k.startswith("obs:"))
     chk.assumptions = [
         "std::hash::Hasher default methods (write_str = write + write_u8(0xff), write_length_prefix = write_usize) are those of the "
         "toolchain that built the harness; observed through the recording Hasher, not assumed",
